@@ -331,6 +331,8 @@ class ApiGen:
             o = self.op('decodex %d %d %d %s' % (k, coin, li, hx(s)))
         if o is None or o.head == 'skip':
             return o, None
+        if any(b >= 128 for b in s) and not any(e.startswith('E nfkd') for e in o.events):
+            self.report('C18', 'nfkd-bypassed', 'decoding the non-ASCII phrase %s never called the injected NFKD function' % s.hex())
         if o.kv('st') == '0':
             f = self.dump(k)
             if f:
@@ -390,6 +392,9 @@ class ApiGen:
             else:
                 nf = [e for e in o.events if e.startswith('E nfkd')]
                 exp_pw = bytes.fromhex(re.search(r'out=(\S+)', nf[0]).group(1).replace('-', '')) if nf else None
+                if not nf:
+                    # C18: the library may skip the injected normaliser only where the dependency contract makes it the identity (pure ASCII)
+                    self.report('C18', 'nfkd-bypassed', 'crypt with the non-ASCII password %s never called the injected NFKD function: the bytes went to the KDF normalised by the library itself' % pw.hex())
             if exp_pw is not None and pwb != exp_pw:
                 self.report('C12', 'crypt-kdf-pw', 'crypt passed password bytes %s to the KDF, expected the NFKD form %s' % (pwb.hex(), exp_pw.hex()))
             if salt != spec.CRYPT_SALT or m.group(3) != '10000' or m.group(4) != '32':
@@ -1238,6 +1243,25 @@ class ApiGen:
                 self.free(k)
         self.inject()
 
+    def probe_lazy_edges(self):
+        """once per history: strings whose ONLY byte outside ASCII is a single boundary value of the lazy-normalisation test
+        (0x7f ascii, 0x80 first non-ASCII, continuation bytes, 0xc0-0xc3 around the first valid lead byte, 0xff), as password
+        (twice: restores the seed) and as phrase (explicit and auto-detecting decoders): whether the injected NFKD is called
+        is part of the compared event stream"""
+        k = self.create()
+        if k is None:
+            return
+        self.busy = {k}
+        for b in (0x7f, 0x80, 0x81, 0xbf, 0xc0, 0xc1, 0xc2, 0xc3, 0xff):
+            pw = b'pw' + bytes([b])
+            if k in self.slots and self.crypt(k, pw) is not None and k in self.slots:
+                self.crypt(k, pw)
+            tail = bytes([b]) if b != 0xc2 else b'\xc2\xb2'
+            self.decode(0, b'abc' + tail + b' def', None)
+            self.decode(0, b'abc def' + tail, self.rnd.randrange(self.nl))
+        if k in self.slots:
+            self.free(k)
+
     def probe_create_edges(self):
         """once per history: creation with feature arguments whose HIGH bits are set (only the three low bits may matter), each
         seed then sent through phrase and storage and its KDF inputs compared along the way"""
@@ -1325,6 +1349,7 @@ class ApiGen:
         if weights.pop('clocks', 0):
             self.probe_clocks()
         self.probe_create_edges()
+        self.probe_lazy_edges()
         names = list(weights)
         ws = [weights[n] for n in names]
         # the deterministic edge probes above do not count against the budget of the random part
